@@ -34,6 +34,7 @@ def main(pid, tier, repo=None):
         proto.rule_done_render(ctx, infos)
         proto.rule_wait(ctx, infos)
         proto.rule_nolock(ctx, infos)     # a guard held across a call that locks the same handle never returns
+        proto.rule_pool_wait(ctx)
     ctx.not_decided("absence of panics in general (thousands of overflow/bounds asserts depend on invariants established elsewhere)")
     ctx.not_decided("termination of loops whose trip count is validated in another function; Brotli output size")
     return ctx.finish(
